@@ -1,6 +1,7 @@
 package client
 
 import (
+	"errors"
 	"fmt"
 	"time"
 
@@ -99,7 +100,12 @@ func (t *sleepTransaction) resendDisconnect() {
 
 func (t *sleepTransaction) Disconnect(disconnect *pkts1.Disconnect) {
 	if t.state != awaitingDisconnect {
-		t.log.Debug("Unexpected packet in %d: %v", t.state, disconnect)
+		// Not a reply to our DISCONNECT => the gateway has disconnected us
+		// (e.g. it does not know us anymore when we wake up).
+		t.log.Debug("Received DISCONNECT, quitting")
+		t.Fail(errors.New("disconnected by the gateway"))
+		t.client.setState(util.StateDisconnected)
+		t.client.cancel()
 		return
 	}
 	t.stopTimer()
@@ -124,6 +130,7 @@ func (t *sleepTransaction) stopTimer() {
 
 func (t *sleepTransaction) startSleep() {
 	t.log.Debug("Sleeping for %v...", t.sleepDuration)
+	t.state = sleeping
 	t.client.setState(util.StateAsleep)
 	t.timer = time.AfterFunc(t.sleepDuration, t.wakeup)
 }
